@@ -2,7 +2,7 @@
 # usage: tools/sweep.sh <tier> <seeds...>   (env PIDS="C01 C02 ..." to restrict) -- runs every check, prints one line per run
 tier=$1; shift
 PIDS=${PIDS:-"C01 C02 C04 C05 C06 C07 C08 C09 C10 C11 C13 C14 C15 C16 C17 C18 C19 C20"}
-cd "$(dirname "$0")/.."
+cd "$(dirname "$0")/.."; mkdir -p .work
 for seed in "$@"; do
   for p in $PIDS; do
     t0=$(date +%s)
